@@ -616,6 +616,23 @@ pub fn run(cfg: &Config) -> PropRun {
             stmts.push(format!("'{}'{sfx}", body.replace('"', "'")));
         }
     }
+    // macro-free snippets of the repository's inline tests, alone and in ordered pairs
+    {
+        let ts: Vec<String> = spaces::load_test_strings(&cfg.corpus_dir).into_iter().filter(|t| is_macro_free(t)).collect();
+        for a in &ts {
+            stmts.push(a.clone());
+            for b in &ts {
+                let t = format!("{a}{b}");
+                if is_macro_free(&t) {
+                    stmts.push(t);
+                }
+                let t = format!("{a}\n{b}");
+                if is_macro_free(&t) {
+                    stmts.push(t);
+                }
+            }
+        }
+    }
     // hex string bodies with commas, blanks and invalid digits at every position
     stmts.extend(crate::props::hex_bodies());
     // fold-alike spellings of every keyword, suffix and in-stream data keyword (macro-free ones)
